@@ -20,8 +20,9 @@ from pbt.storage import Controller
 PROPERTY = 'C04'
 LEVEL = 'fault_enumeration'
 RULE = ('Scenarios: generated chains of 4..12 blocks with 2..6 planned flushes (history-only and '
-        'full), generated prefetch/activation/reorg limit, LogicalFile size shrunk in a third of '
-        'cases so one logical write spans several files. For each scenario EVERY write operation '
+        'full), then 0..3 further blocks that arrive after the first catch-up (databases re-opened '
+        'for serving, one full flush per catch-up), generated prefetch/activation/reorg limit, '
+        'LogicalFile size shrunk in a third of cases so one logical write spans several files. For each scenario EVERY write operation '
         'of the crash-free run after the database is open (each meta-file write, each batch '
         'commit, each direct put) is a cut point, plus torn prefixes (1, half, all-but-one byte) '
         'of every file write; thorough also cuts a second time at every write of the recovery. '
@@ -44,16 +45,20 @@ def shards(tier):
 def case_strategy():
     base = scenario.sync_case(min_blocks=4, max_blocks=12, max_txs=4)
 
-    def shape(case, flushes, small_files):
+    def shape(case, flushes, small_files, tail):
         n = len(case['blocks'])
         case = dict(case)
         case['flush'] = [flushes[i % len(flushes)] for i in range(n)]
         case['reveals'] = []
         case['small_files'] = small_files
+        # blocks that arrive after the first catch-up (the databases have been re-opened for
+        # serving by then; each is flushed in full when the processor catches up again)
+        case['tail'] = tail
         return case
     return st.builds(shape, base,
                      st.lists(st.sampled_from([0, 1, 2, 2, 0, 1]), min_size=2, max_size=12),
-                     st.sampled_from([0, 0, 1]))
+                     st.sampled_from([0, 0, 1]),
+                     st.lists(scenario.block_desc(max_txs=3), max_size=3))
 
 
 def shrink_files(db):
@@ -66,7 +71,14 @@ def shrink_files(db):
 def run_scenario(ctx_like, scratch, case, cuts=None, double=False):
     '''Returns (message, sig, info).  cuts=None -> all cuts; else an explicit list
     [(index, torn_bytes|None)...] (replay).'''
-    world = scenario.build_world(case)
+    tail = case.get('tail') or []
+
+    def full_world():
+        w = scenario.build_world(case)
+        if tail:
+            w.extend(tail)
+        return w
+    world = full_world()
     chain = world.chain()
     activation = case['activation']
     coin = make_coin(activation, case['prefetch'])
@@ -86,8 +98,18 @@ def run_scenario(ctx_like, scratch, case, cuts=None, double=False):
     db_setup = shrink_files if case.get('small_files') else None
 
     def phase(ctl, db_dir):
-        return crash.run_node_phase(db_dir, world, coin, limit, plan, ctl, case.get('lat', ()),
-                                    db_setup=db_setup)
+        if not tail:
+            return crash.run_node_phase(db_dir, world, coin, limit, plan, ctl, case.get('lat', ()),
+                                        db_setup=db_setup)
+        w = scenario.build_world(case)
+
+        async def script(node):
+            import asyncio
+            w.extend(tail)
+            await asyncio.sleep(6)
+            await node.settle()
+        return crash.run_node_phase(db_dir, w, coin, limit, plan, ctl, case.get('lat', ()),
+                                    script=script, db_setup=db_setup)
 
     # crash-free pass
     ctl0 = Controller()
